@@ -153,10 +153,17 @@ func c16Expected(prog *hs.Program, pr *hs.Printed, hist []hostCall) []string {
 func c16Body(hist []hostCall, inspect bool) func(h *hostEnv, prog compiler.CompileOutput) {
 	return func(h *hostEnv, prog compiler.CompileOutput) {
 		vm := h.newVM(prog, schedLimits)
+		// a host may keep one argument slice per call site and reuse it for repeated calls: the VM
+		// must neither reorder nor convert the host's slice in place
+		hostArgs := map[string][]value.Value{}
 		for _, c := range hist {
-			args := make([]value.Value, len(c.Args))
-			for i, a := range c.Args {
-				args[i] = *value.NewValueInt(a)
+			args, reused := hostArgs[c.String()]
+			if !reused {
+				args = make([]value.Value, len(c.Args))
+				for i, a := range c.Args {
+					args[i] = *value.NewValueInt(a)
+				}
+				hostArgs[c.String()] = args
 			}
 			inv := runtime.FunctionInvocation{Function: c.Fn, Args: args, FunctionSignature: c16Signature(c.Fn)}
 			var res runtime.FunctionInvocationResult
@@ -167,6 +174,12 @@ func c16Body(hist []hostCall, inspect bool) func(h *hostEnv, prog compiler.Compi
 				res = vm.HandleTermination(core, inv, i, n)
 			} else {
 				res = vm.SpawnSync(inv, nil, nil)
+			}
+			for i, a := range c.Args {
+				if iv, ok := args[i].(value.ValueInt); !ok || iv.Inner != a {
+					h.log("residue after %s: host-argument-slice-modified (argument %d is now %s)", c.String(), i, showValue(args[i]))
+					break
+				}
 			}
 			if res.Exception != nil {
 				h.log("%s=FAIL", c.String())
